@@ -16,7 +16,10 @@
                                                          singletons, the start districts carry the empty set)
      _is_upgradable / _is_downgradable L768-781
      _augment_result      L644-676  [walk] (the path, by set.pop() on singletons: popping the same set twice is a
-                                            KeyError) + Biprop.augment
+                                            KeyError; the walk ends only at a DISTRICT of districts_over - the loop
+                                            condition as repaired by fixes/C07-same-labels.diff: districts and parties
+                                            are separate name spaces here, so a party labelled like an over-represented
+                                            district cannot end it) + Biprop.augment
      _adj_coef            L678-717  Biprop.adj_coef
      evaluate             L562-641  [bstep], [bloop], [evaluate_core], [evaluate_total]
 
